@@ -747,6 +747,9 @@ impl<S: Sample> RenderedImage<S> {
         *grid_lock = FrameRender::Rendering;
         drop(grid_lock);
 
+        #[cfg(jxl_oxide_verif)]
+        let _probe =
+            crate::verif::probe_scope(self.image.frame.idx, crate::verif::ProbeKind::Blend);
         composite(
             &self.image.frame,
             &mut grid,
@@ -754,6 +757,8 @@ impl<S: Sample> RenderedImage<S> {
             oriented_image_region,
             pool,
         )?;
+        #[cfg(jxl_oxide_verif)]
+        drop(_probe);
 
         let image = Arc::new(grid);
         drop(
